@@ -27,6 +27,15 @@ def families(tier):
         fams.append(("around:" + d, [("sym", 1), d, ("sym", 1)]))
         if tier == "thorough":
             fams.append(("around2:" + d, [("sym", 2), d, ("sym", 2)]))
+    # the braced directives from the inside: `%{` / `%{xattr:` followed by arbitrary characters (names that are empty, cut short,
+    # extended, or not closed), and every braced directive with one character replaced or inserted
+    for k in ((1, 2, 3) if tier == "quick" else (1, 2, 3, 4)):
+        fams.append(("xattr-name%d" % k, ["%{xattr:", ("sym", k)]))
+    for k in ((4,) if tier == "quick" else (4, 5)):          # `fid}` is the shortest tail that closes a directive
+        fams.append(("braced%d" % k, ["%{", ("sym", k)]))
+    for w in ("fid", "projid", "mirror-count", "stripe-count", "stripe-size", "xattr:ab"):
+        fams.append(("braced-tail:" + w, ["%{" + w, ("sym", 2)]))
+        fams.append(("braced-cut:" + w, ["%{" + w[:-1], ("sym", 2)]))
     # long literal runs before and between directives (a scan bounded at some length would stop splitting there)
     for L in ((40, 256, 300) if tier == "quick" else (40, 255, 256, 257, 300, 1030)):
         fams.append(("long%d" % L, ["x" * L, ("sym", 1), "%p", "y" * L, "\\n", ("sym", 1)]))
@@ -95,7 +104,8 @@ def run(ctx, rep, tier):
             return b_and(b_not(struct_eq(r.I, impl, spec_val, st)), b_not(sil))
 
         # reachability twin: the family must reach the format parser with an Ok result
-        reach, _ = B.solve("%s:reach" % name, r.assume, r.guard(is_ok))
+        # (`%{xattr:` + one character cannot be a complete directive: the twin of that family is "some input is rejected")
+        reach, _ = B.solve("%s:reach" % name, r.assume, r.guard(is_err if name == "xattr-name1" else is_ok))
         if reach != z3.sat:
             rep.inconclusive.append("family %s never parses successfully (vacuous)" % name)
             continue
